@@ -33,7 +33,8 @@ JOBQUEUE = {
     "goals": {t: [{"module": "JobQueue_Goal.tla", "cfg": "JobQueue_Goal_jc.cfg", "harness_cfg": dict(JQ_HCFG, JCSync=True, MaxJobs=2), "timeout": 300, "flags": ["-suffix", n]},
                   # one search, two replays: the second with the restart's informers listing Jobs before JobConfigs
                   {"module": "JobQueue_Goal.tla", "cfg": "JobQueue_Goal_q.cfg", "harness_cfg": JQ_HCFG, "timeout": 300, "flags": ["-suffix", n],
-                   "variants": [{"label": "jobsfirst", "harness_cfg": dict(JQ_HCFG, JobsFirst=True)}]}]
+                   "variants": [{"label": "jobsfirst", "harness_cfg": dict(JQ_HCFG, JobsFirst=True)}]},
+                  {"module": "JobQueue_Goal.tla", "cfg": "JobQueue_Goal_q2.cfg", "harness_cfg": dict(JQ_HCFG, MaxC=[2]), "timeout": 300, "flags": ["-suffix", n]}]
               for t, n in (("quick", "20"), ("thorough", "50"))},
     "harness": {
         "quick": [
@@ -274,7 +275,7 @@ FORMULAS = {
     "C20": ["C20_Converges", "C20_Quiescent", "C20_SameOutcome", "<every formula of C02, C05-C13, C15 on runs with injected faults or crashes>"],
     "C04": ["C04_" + x for x in _PASS],
     "C05": ["C05_Admission"],
-    "C06": ["C06_Fifo", "C06_EnqueueNeverRefused", "C06_AllowNeverRefused", "C06_RefusedOnlyAtLimit", "C06_NoStuck", "C06_CronForbid"],
+    "C06": ["C06_Fifo", "C06_EnqueueNeverRefused", "C06_AllowNeverRefused", "C06_RefusedOnlyAtLimit", "C06_ForbidNotStartedAtLimit", "C06_NoStuck", "C06_CronForbid"],
     "C07": ["C07_NotEarly", "C07_NotEarlyStep", "C07_IndependentStarts", "C07_DueStarts", "C07_RefusedOnlyWhenDue"],
     "C15": ["C15_Exact", "C15_Monotone", "C15_Covers"],
     "C08": ["C08_OneLive", "C08_Order", "C08_Delay", "C08_Gates"],
